@@ -302,6 +302,9 @@ func (p *Ptr) peek() AV {
 	for _, i := range p.Path {
 		switch x := v.(type) {
 		case *StructV:
+			if i >= len(x.F) {
+				ood("field #%d of a value modelled with %d fields (%s)", i, len(x.F), avString(v))
+			}
 			v = x.F[i]
 		case *ArrV:
 			if i < 0 || i >= len(x.C) {
@@ -334,6 +337,9 @@ func (p *Ptr) store(nv AV) {
 		last := k == len(p.Path)-1
 		switch x := v.(type) {
 		case *StructV:
+			if i >= len(x.F) {
+				ood("field #%d of a value modelled with %d fields", i, len(x.F))
+			}
 			if last {
 				x.F[i] = nv
 				return
